@@ -3,6 +3,8 @@
 Everything returned here is text taken from the file on disk; the only textual change this module
 makes is rule R1 (macro metavariable substitution, the same token substitution rustc performs).
 """
+import os
+
 from .rustlex import Src, norm, lex
 
 
@@ -227,10 +229,16 @@ _cache = {}
 
 
 def load(path):
-    if path not in _cache:
+    # keyed by content identity, not only by path: the development tools (tools_mutsweep.py) rewrite the same scratch file many
+    # times inside one process
+    st = os.stat(path)
+    key = (path, st.st_mtime_ns, st.st_size)
+    if key not in _cache:
+        for k in [k for k in _cache if k[0] == path]:
+            del _cache[k]
         with open(path) as f:
-            _cache[path] = Src(f.read())
-    return _cache[path]
+            _cache[key] = Src(f.read())
+    return _cache[key]
 
 
 def find_fn(repo, file, item, macro=None, subst=None, nth=None, trait=None):
